@@ -1,5 +1,6 @@
 import VrpModel.Graph
 import VrpProofs.Lemmas.Sum
+import VrpProofs.Lemmas.Graph
 import Mathlib.Tactic.Linarith
 
 /-!
@@ -26,5 +27,359 @@ structure Inv (g : Graph) : Prop where
       ni.name = e.2.orig ∧ nj.name = e.2.dest ∧ leE (ni.lo + e.2.time) nj.hi = true
 
 theorem inv_init : Inv {} := ⟨by simp [Graph.names], by simp, by simp, by simp⟩
+
+
+/-! ## preservation lemmas, one per primitive -/
+
+theorem addNodeStep_inv (g : Graph) (nm : String) (d lo : ℚ) (hi : ERat) (h : Inv g) :
+    Inv (addNodeStep g nm d lo hi).1 := by
+  unfold addNodeStep
+  split_ifs with h1 h2
+  · exact h
+  · exact h
+  · refine ⟨?_, ?_, h.keysNodup, ?_⟩
+    · have : ({ g with nodes := g.nodes ++ [⟨nm, d, lo, hi⟩] } : Graph).names = g.names ++ [nm] := by
+        simp [Graph.names]
+      rw [this]
+      exact List.Nodup.append h.nodup (List.nodup_singleton nm) (by simpa using h1)
+    · intro n hn
+      simp only [List.mem_append, List.mem_singleton] at hn
+      rcases hn with hn | rfl
+      · exact h.nodesOk n hn
+      · exact leE_of_ltE_false (by simpa using h2)
+    · intro e he
+      obtain ⟨ni, nj, h1, h2, h3⟩ := h.filed e he
+      refine ⟨ni, nj, ?_, ?_, h3⟩
+      · exact List.getElem?_append_left (List.getElem?_eq_some_iff.mp h1).1 ▸ h1
+      · exact List.getElem?_append_left (List.getElem?_eq_some_iff.mp h2).1 ▸ h2
+
+/-- the timing test of `add_arc` (strict rule on / off) -/
+def okTiming (g : Graph) (rule : Bool) (i j : ℕ) (t : ℚ) : Bool :=
+  if rule then
+    (match g.hi i with
+     | none => (g.hi j).isNone
+     | some b => leE (b + t) (g.hi j))
+  else leE (g.lo i + t) (g.hi j)
+
+theorem addArcWith_eq (g : Graph) (o d : String) (t c : ℚ) (rule : ℕ → Bool) (i j : ℕ)
+    (hi : g.indexOf? o = some i) (hj : g.indexOf? d = some j) :
+    addArcWith g o d t c rule =
+      if okTiming g (rule i) i j t then
+        ({ g with arcs := dictSet g.arcs (i, j) ⟨o, d, t, c⟩ }, .ok (some true))
+      else (g, .ok (some false)) := by
+  unfold addArcWith okTiming
+  simp only [hi, hj]
+  rfl
+
+theorem addArcWith_err (g : Graph) (o d : String) (t c : ℚ) (rule : ℕ → Bool)
+    (h : g.indexOf? o = none ∨ g.indexOf? d = none) :
+    addArcWith g o d t c rule = (g, .error .value) := by
+  unfold addArcWith
+  rcases h with h | h
+  · simp only [h]
+  · cases g.indexOf? o <;> simp only [h]
+
+/-- the timing test of either flavour implies the invariant's timing clause -/
+theorem okTiming_imp (g : Graph) (h : Inv g) (rule : Bool) (i j : ℕ) (t : ℚ) (ni nj : Node)
+    (hni : g.nodes[i]? = some ni) (hnj : g.nodes[j]? = some nj)
+    (hok : okTiming g rule i j t = true) :
+    leE (ni.lo + t) nj.hi = true := by
+  have hlo : g.lo i = ni.lo := by simp [Graph.lo, hni]
+  have hhi : g.hi i = ni.hi := by simp [Graph.hi, hni]
+  have hhj : g.hi j = nj.hi := by simp [Graph.hi, hnj]
+  have hw := h.nodesOk ni (List.mem_of_getElem? hni)
+  unfold okTiming at hok
+  rw [hlo, hhi, hhj] at hok
+  cases rule with
+  | false => simpa using hok
+  | true =>
+    simp only [if_true] at hok
+    cases hj : nj.hi with
+    | none => simp [leE]
+    | some c =>
+      cases hb : ni.hi with
+      | none => simp [hb, hj] at hok
+      | some b =>
+        simp only [hb, hj, leE, decide_eq_true_eq] at hok hw ⊢
+        linarith
+
+theorem addArcWith_inv (g : Graph) (o d : String) (t c : ℚ) (rule : ℕ → Bool) (h : Inv g) :
+    Inv (addArcWith g o d t c rule).1 := by
+  cases hi : g.indexOf? o with
+  | none => rw [addArcWith_err _ _ _ _ _ _ (Or.inl hi)]; exact h
+  | some i =>
+    cases hj : g.indexOf? d with
+    | none => rw [addArcWith_err _ _ _ _ _ _ (Or.inr hj)]; exact h
+    | some j =>
+      rw [addArcWith_eq g o d t c rule i j hi hj]
+      by_cases hok : okTiming g (rule i) i j t = true
+      · rw [if_pos hok]
+        obtain ⟨ni, hni, hnin⟩ := Graph.indexOf?_eq_some hi
+        obtain ⟨nj, hnj, hnjn⟩ := Graph.indexOf?_eq_some hj
+        refine ⟨h.nodup, h.nodesOk, dictSet_keys_nodup _ _ _ h.keysNodup, ?_⟩
+        intro e he
+        rcases mem_dictSet he with rfl | he
+        · exact ⟨ni, nj, hni, hnj, hnin, hnjn, okTiming_imp g h (rule i) i j t ni nj hni hnj hok⟩
+        · exact h.filed e he
+      · rw [if_neg hok]; exact h
+
+theorem setDepotBase_inv (g : Graph) (nm : String) (h : Inv g) : Inv (setDepotBase g nm).1 := by
+  unfold setDepotBase
+  cases hd : g.indexOf? nm with
+  | none => exact h
+  | some d =>
+    simp only
+    split_ifs with h0
+    · exact h
+    · obtain ⟨nd, hnd, _⟩ := Graph.indexOf?_eq_some hd
+      have hdlt : d < g.nodes.length := (List.getElem?_eq_some_iff.mp hnd).1
+      refine ⟨?_, ?_, ?_, ?_⟩
+      · show ((moveFront g.nodes d).map (·.name)).Nodup
+        rw [moveFront_map]
+        exact ((moveFront_perm _ d).nodup_iff).mpr h.nodup
+      · intro n hn
+        exact h.nodesOk n ((moveFront_perm _ d).mem_iff.mp hn)
+      · show ((g.arcs.map fun e => ((remap d e.1.1, remap d e.1.2), e.2)).map (·.1)).Nodup
+        have : ((g.arcs.map fun e => ((remap d e.1.1, remap d e.1.2), e.2)).map (·.1))
+            = (g.arcs.map (·.1)).map (fun k : Key => ((remap d k.1, remap d k.2) : Key)) := by
+          simp [List.map_map, Function.comp_def]
+        rw [this]
+        exact List.Nodup.map (remapKey_injective d) h.keysNodup
+      · intro e' he'
+        simp only [List.mem_map] at he'
+        obtain ⟨e, he, rfl⟩ := he'
+        obtain ⟨ni, nj, h1, h2, h3⟩ := h.filed e he
+        refine ⟨ni, nj, ?_, ?_, h3⟩
+        · show (moveFront g.nodes d)[remap d e.1.1]? = some ni
+          rw [moveFront_get _ _ _ hdlt (List.getElem?_eq_some_iff.mp h1).1]; exact h1
+        · show (moveFront g.nodes d)[remap d e.1.2]? = some nj
+          rw [moveFront_get _ _ _ hdlt (List.getElem?_eq_some_iff.mp h2).1]; exact h2
+
+/-- a successful base `set_depot` leaves a non-empty node list headed by the requested node -/
+theorem setDepotBase_ok (g : Graph) (nm : String) (d : ℕ) (hd : g.indexOf? nm = some d) :
+    (setDepotBase g nm).2 = .ok none ∧
+    ∃ n0, (setDepotBase g nm).1.nodes.head? = some n0 ∧ n0.name = nm := by
+  obtain ⟨nd, hnd, hnm⟩ := Graph.indexOf?_eq_some hd
+  have hdlt : d < g.nodes.length := (List.getElem?_eq_some_iff.mp hnd).1
+  unfold setDepotBase
+  simp only [hd]
+  split_ifs with h0
+  · subst h0
+    exact ⟨rfl, nd, by rw [List.head?_eq_getElem?]; exact hnd, hnm⟩
+  · exact ⟨rfl, nd, by show (moveFront g.nodes d).head? = some nd
+                       rw [moveFront_head _ _ hdlt]; exact hnd, hnm⟩
+
+theorem setDepotBase_err (g : Graph) (nm : String) (hd : g.indexOf? nm = none) :
+    setDepotBase g nm = (g, .error .value) := by
+  unfold setDepotBase; simp [hd]
+
+/-- the sequence-based `set_depot`, unfolded -/
+def setDepotSeq (g : Graph) (nm : String) : Graph × GOut :=
+  let r := setDepotBase g nm
+  match r.2 with
+  | .error e => (g, .error e)
+  | .ok _ =>
+    match r.1.nodes.head? with
+    | none => (g, .error .index)
+    | some n0 => ({ r.1 with arcs := dictSet r.1.arcs (0, 0) ⟨n0.name, n0.name, 0, 0⟩ }, .ok none)
+
+theorem gstep_setDepot_seq (s : Bool) (g : Graph) (nm : String) :
+    gstep (.seq s) g (.setDepot nm) = setDepotSeq g nm := rfl
+
+theorem setDepotSeq_err (g : Graph) (nm : String) (hd : g.indexOf? nm = none) :
+    setDepotSeq g nm = (g, .error .value) := by
+  unfold setDepotSeq; simp [setDepotBase_err g nm hd]
+
+theorem setDepotSeq_ok (g : Graph) (nm : String) (d : ℕ) (hd : g.indexOf? nm = some d) :
+    ∃ n0, (setDepotBase g nm).1.nodes.head? = some n0 ∧ n0.name = nm ∧
+      setDepotSeq g nm =
+        ({ (setDepotBase g nm).1 with
+            arcs := dictSet (setDepotBase g nm).1.arcs (0, 0) ⟨n0.name, n0.name, 0, 0⟩ }, .ok none) := by
+  obtain ⟨hok, n0, hn0, hnm⟩ := setDepotBase_ok g nm d hd
+  refine ⟨n0, hn0, hnm, ?_⟩
+  unfold setDepotSeq
+  simp [hok, hn0]
+
+theorem setDepotSeq_inv (g : Graph) (nm : String) (h : Inv g) : Inv (setDepotSeq g nm).1 := by
+  cases hd : g.indexOf? nm with
+  | none => rw [setDepotSeq_err g nm hd]; exact h
+  | some d =>
+    obtain ⟨n0, hn0, _, heq⟩ := setDepotSeq_ok g nm d hd
+    rw [heq]
+    have hb := setDepotBase_inv g nm h
+    have hn0' : (setDepotBase g nm).1.nodes[0]? = some n0 := by
+      rw [← List.head?_eq_getElem?]; exact hn0
+    refine ⟨hb.nodup, hb.nodesOk, dictSet_keys_nodup _ _ _ hb.keysNodup, ?_⟩
+    intro e he
+    rcases mem_dictSet he with rfl | he
+    · refine ⟨n0, n0, hn0', hn0', rfl, rfl, ?_⟩
+      have := hb.nodesOk n0 (List.mem_of_getElem? hn0')
+      simpa using this
+    · exact hb.filed e he
+
+/-! ## the property theorems -/
+
+theorem gstep_addArc (fl : Flavor) (g : Graph) (o d : String) (t c : ℚ) :
+    ∃ rule : ℕ → Bool, gstep fl g (.addArc o d t c) = addArcWith g o d t c rule := by
+  cases fl with
+  | base => exact ⟨_, rfl⟩
+  | seq s => exact ⟨_, rfl⟩
+
+theorem gstep_setDepot (fl : Flavor) (g : Graph) (nm : String) :
+    gstep fl g (.setDepot nm) = setDepotBase g nm ∨ gstep fl g (.setDepot nm) = setDepotSeq g nm := by
+  cases fl with
+  | base => exact Or.inl rfl
+  | seq s => exact Or.inr rfl
+
+/-- a call that raises leaves the graph unchanged -/
+theorem error_leaves_state (fl : Flavor) (g : Graph) (op : GOp) (e : Err)
+    (h : (gstep fl g op).2 = .error e) : (gstep fl g op).1 = g := by
+  cases op with
+  | addNode nm d lo hi =>
+    simp only [gstep, addNodeStep] at h ⊢
+    split_ifs at h ⊢ <;> rfl
+  | setDepot nm =>
+    cases hd : g.indexOf? nm with
+    | none =>
+      rcases gstep_setDepot fl g nm with h' | h'
+      · rw [h', setDepotBase_err g nm hd]
+      · rw [h', setDepotSeq_err g nm hd]
+    | some d =>
+      exfalso
+      rcases gstep_setDepot fl g nm with h' | h'
+      · rw [h', (setDepotBase_ok g nm d hd).1] at h; simp at h
+      · obtain ⟨n0, _, _, heq⟩ := setDepotSeq_ok g nm d hd
+        rw [h', heq] at h; simp at h
+  | addArc o d t c =>
+    obtain ⟨rule, hr⟩ := gstep_addArc fl g o d t c
+    rw [hr] at h ⊢
+    cases hi : g.indexOf? o with
+    | none => rw [addArcWith_err _ _ _ _ _ _ (Or.inl hi)]
+    | some i =>
+      cases hj : g.indexOf? d with
+      | none => rw [addArcWith_err _ _ _ _ _ _ (Or.inr hj)]
+      | some j =>
+        rw [addArcWith_eq g o d t c rule i j hi hj] at h
+        split_ifs at h
+
+/-- `add_node` raises exactly for a duplicate name or an inverted window -/
+theorem addNode_raises_iff (fl : Flavor) (g : Graph) (nm : String) (d lo : ℚ) (hi : ERat) :
+    (∃ e, (gstep fl g (.addNode nm d lo hi)).2 = .error e) ↔ (nm ∈ g.names ∨ ltE hi lo = true) := by
+  simp only [gstep, addNodeStep]
+  by_cases h1 : nm ∈ g.names
+  · simp [h1]
+  · by_cases h2 : ltE hi lo = true
+    · simp [h1, h2]
+    · simp [h1, h2]
+
+/-- `set_depot` raises exactly for an unknown name -/
+theorem setDepot_raises_iff (fl : Flavor) (g : Graph) (hinv : Inv g) (nm : String) :
+    (∃ e, (gstep fl g (.setDepot nm)).2 = .error e) ↔ nm ∉ g.names := by
+  have _ := hinv  -- not needed: the equivalence holds for every graph
+  rw [← Graph.indexOf?_eq_none_iff]
+  cases hd : g.indexOf? nm with
+  | none =>
+    rcases gstep_setDepot fl g nm with h' | h'
+    · rw [h', setDepotBase_err g nm hd]; simp
+    · rw [h', setDepotSeq_err g nm hd]; simp
+  | some d =>
+    rcases gstep_setDepot fl g nm with h' | h'
+    · rw [h', (setDepotBase_ok g nm d hd).1]; simp
+    · obtain ⟨n0, _, _, heq⟩ := setDepotSeq_ok g nm d hd
+      rw [h', heq]; simp
+
+/-- `add_arc` raises exactly when one of the names is unknown -/
+theorem addArc_raises_iff (fl : Flavor) (g : Graph) (o d : String) (t c : ℚ) :
+    (∃ e, (gstep fl g (.addArc o d t c)).2 = .error e) ↔ (o ∉ g.names ∨ d ∉ g.names) := by
+  obtain ⟨rule, hr⟩ := gstep_addArc fl g o d t c
+  rw [hr, ← Graph.indexOf?_eq_none_iff, ← Graph.indexOf?_eq_none_iff]
+  cases hi : g.indexOf? o with
+  | none => rw [addArcWith_err _ _ _ _ _ _ (Or.inl hi)]; simp
+  | some i =>
+    cases hj : g.indexOf? d with
+    | none => rw [addArcWith_err _ _ _ _ _ _ (Or.inr hj)]; simp
+    | some j =>
+      rw [addArcWith_eq g o d t c rule i j hi hj]
+      split_ifs <;> simp
+
+/-- after a successful `set_depot nm` the node `nm` is first -/
+theorem setDepot_first (fl : Flavor) (g : Graph) (nm : String) (hinv : Inv g)
+    (h : (gstep fl g (.setDepot nm)).2 = .ok none) :
+    ((gstep fl g (.setDepot nm)).1.nodes.head?).map (·.name) = some nm := by
+  have _ := hinv  -- not needed: holds for every graph
+  cases hd : g.indexOf? nm with
+  | none =>
+    exfalso
+    rcases gstep_setDepot fl g nm with h' | h'
+    · rw [h', setDepotBase_err g nm hd] at h; simp at h
+    · rw [h', setDepotSeq_err g nm hd] at h; simp at h
+  | some d =>
+    rcases gstep_setDepot fl g nm with h' | h'
+    · obtain ⟨_, n0, hn0, hnm⟩ := setDepotBase_ok g nm d hd
+      rw [h', hn0]; simp [hnm]
+    · obtain ⟨n0, hn0, hnm, heq⟩ := setDepotSeq_ok g nm d hd
+      rw [h', heq]
+      show ((setDepotBase g nm).1.nodes.head?).map (·.name) = some nm
+      rw [hn0]; simp [hnm]
+
+/-- base class: `add_arc` reports success iff the timing filter holds iff the arc was stored;
+    on `False` the graph is unchanged -/
+theorem addArc_result_base (g : Graph) (o d : String) (t c : ℚ) (i j : ℕ)
+    (hi : g.indexOf? o = some i) (hj : g.indexOf? d = some j) :
+    let r := gstep .base g (.addArc o d t c)
+    (r.2 = .ok (some true) ↔ leE (g.lo i + t) (g.hi j) = true) ∧
+    (r.2 = .ok (some false) ↔ leE (g.lo i + t) (g.hi j) = false) ∧
+    (r.2 = .ok (some true) → dictGet r.1.arcs (i, j) = some ⟨o, d, t, c⟩ ∧ r.1.nodes = g.nodes) ∧
+    (r.2 = .ok (some false) → r.1 = g) := by
+  intro r
+  have hr : r = addArcWith g o d t c (fun _ => false) := rfl
+  rw [addArcWith_eq g o d t c _ i j hi hj] at hr
+  have hk : okTiming g false i j t = leE (g.lo i + t) (g.hi j) := by simp [okTiming]
+  rw [hk] at hr
+  rw [hr]
+  cases hle : leE (g.lo i + t) (g.hi j) with
+  | true => simp [dictGet_dictSet_self]
+  | false => simp
+
+/-- every call of every flavour preserves the invariant -/
+theorem gstep_inv (fl : Flavor) (g : Graph) (op : GOp) (h : Inv g) : Inv (gstep fl g op).1 := by
+  cases op with
+  | addNode nm d lo hi => exact addNodeStep_inv g nm d lo hi h
+  | setDepot nm =>
+    rcases gstep_setDepot fl g nm with h' | h'
+    · rw [h']; exact setDepotBase_inv g nm h
+    · rw [h']; exact setDepotSeq_inv g nm h
+  | addArc o d t c =>
+    obtain ⟨rule, hr⟩ := gstep_addArc fl g o d t c
+    rw [hr]; exact addArcWith_inv g o d t c rule h
+
+theorem grun_inv_of (fl : Flavor) (ops : List GOp) (g : Graph) (h : Inv g) : Inv (grun fl g ops) := by
+  induction ops generalizing g with
+  | nil => exact h
+  | cons op rest ih => exact ih _ (gstep_inv fl g op h)
+
+/-- the invariant holds after every finite call history, starting from the empty graph -/
+theorem grun_inv (fl : Flavor) (ops : List GOp) : Inv (grun fl {} ops) :=
+  grun_inv_of fl ops {} inv_init
+
+/-- regression of the model: the pinned `set_depot` (keys not re-mapped) breaks the invariant on the
+    history a, b, d, a→b, d→a, set_depot d -/
+theorem setDepotPinned_breaks :
+    let g := grun .base {} [.addNode "a" 0 0 none, .addNode "b" 0 0 none, .addNode "d" 0 0 none,
+                            .addArc "a" "b" 1 1, .addArc "d" "a" 1 2]
+    Inv g ∧ ¬ Inv (setDepotPinned g "d").1 := by
+  intro g
+  refine ⟨grun_inv _ _, ?_⟩
+  intro h
+  have hmem : (((0, 1), ⟨"a", "b", 1, 1⟩) : Key × Arc) ∈ (setDepotPinned g "d").1.arcs := by
+    decide +kernel
+  have hnode : ((setDepotPinned g "d").1.nodes[0]?).map (·.name) = some "d" := by
+    decide +kernel
+  obtain ⟨ni, nj, h1, _, h3, _⟩ := h.filed _ hmem
+  simp only at h1 h3
+  rw [h1] at hnode
+  simp only [Option.map_some, Option.some.injEq] at hnode
+  rw [h3] at hnode
+  exact absurd hnode (by decide)
 
 end Vrp.C15
